@@ -2,6 +2,7 @@ SPECIFICATION Spec
 CONSTANTS MaxItems = 3
  MaxSub = 0
  MaxBlocks = 0
+ MaxDepth = 1
  Budget = 2
  IdOffs <- IdOffs3
  Rules = {"assume", "implies_intr", "substitution", "sorry", ""}
